@@ -26,7 +26,9 @@ PROPS.update({
     "C02": {
         "text": "Theorem C02_process_one_terminal: for every actor behaviour (any sequence of message-API calls, any ending, callbacks "
                 "and result store failing or not) the model of _Processor.process emits exactly one terminal broker call; "
-                "C02_disposition_table characterises it (iff) as ack/retry/reschedule/nack; C02_eager_nothing_more. The model "
+                "C02_disposition_table characterises it (iff) as ack/retry/reschedule/nack; C02_eager_nothing_more. The ladder itself is tied by "
+                "the translator: GenLadder.gen_decide is regenerated from _Processor.report_to_broker on every run and proved equal to "
+                "Ladder.decide (C02_source_is_model_ladder). The rest of the model "
                 "(Handle.v+Ladder.v) is tied to /repo by ~1.4k deliveries per quick run through a real Worker (cross product of "
                 "endings x eager actions x retry states x recurring x result x converter, plus concurrent mixes of up to 8). Oracle-only families on top: an eager response racing the actor's time limit over a broker whose calls take 0 / 30 ms (168 runs; fix 13f6c0a recorded) and two overlapping deliveries of one message id (16 runs; fix 3608da2 recorded): exactly one terminal action per delivery, at most one place afterwards.",
         "note": "In-memory broker only; a raising broker call is excluded by hypothesis (no_faults); actor bodies that catch "
